@@ -1,6 +1,6 @@
 Require Extraction.
 Require Import ExtrOcamlBasic.
-Require Import BertE.Base.Anchors BertE.Model.Git BertE.Model.Flow BertE.Model.Gate BertE.Model.Owned.
+Require Import BertE.Base.Anchors BertE.Model.Pipeline BertE.Model.Git BertE.Model.Flow BertE.Model.Gate BertE.Model.Owned.
 Extraction "../build/ocaml/C08/model.ml" anchor_types git_merge anc push_all_atomic push_names
   merge_integration_ops merge_queues_ops merge_integration merge_queues add_to_queue add_to_queue_ops incl_b
-  update_ops check_in_sync is_needed remove_guard.
+  update_ops check_in_sync is_needed remove_guard run_handler.
